@@ -3,7 +3,7 @@ import ast
 import re
 
 from ..engine import sym
-from ..engine.interp import Rec, Raised, ExcVal, PyFn, ClassVal
+from ..engine.interp import Unsupported, Rec, Raised, ExcVal, PyFn, ClassVal
 from ..engine.loader import Unknown, norm_text, walk_local
 from ..engine.sym import is_sym
 from ..rules import guards
@@ -371,6 +371,65 @@ def rule_R5(ck):
             ck.violation(where, "names defined after '.extern all' are not exported", construct="extern all later names")
         if "duplicate-symbol" not in [e[2] for e in ps[0].reported()]:
             ck.violation(where, "a name exported by two files is not reported as a duplicate", construct="extern duplicate")
+    # the other order: this file defined 'x' BEFORE its '.extern all', another file has exported an 'x' already
+    def thunk2b():
+        sh = Shapes(I)
+        comp = I.instantiate(I.module_get("compiler", "Compiler"), [], {})
+        other = {"local_symbol_prefix": ".local9.", "internal_symbol_prefix": ".internal9.", "compiler": comp, "internal_symbols_list": [], "extern_all": None}
+        I.call_method(comp, "declare_external_symbol", [sh.symbol("x"), "x", other])
+        st = {"local_symbol_prefix": ".local1.", "internal_symbol_prefix": ".internal1.", "compiler": comp, "internal_symbols_list": [], "extern_all": None,
+              "insn": sh.symbol(".extern")}
+        lab = sh.mk(I.module_get("types", "Label"), None, None, "x", False)
+        I.call_method(comp, "compile_label", [lab, 0, st])
+        lab2 = sh.mk(I.module_get("types", "Label"), None, None, "own", False)
+        I.call_method(comp, "compile_label", [lab2, 0, st])
+        n0 = len([e for e in I.effects if e[0] == "report" and e[2] == "duplicate-symbol"])
+        I.call(metacommand_fn(I, ".extern"), [st, sh.symbol("all")], {})
+        n1 = len([e for e in I.effects if e[0] == "report" and e[2] == "duplicate-symbol"])
+        t = _table(comp.fields["extern_symbols_mapping"])
+        return n1 - n0, t.get("x"), t.get("own")
+    ps = I.explore(thunk2b)
+    ck.instance(("extern-all-dup",), {"outcome": ps[0].kind, "value": repr(ps[0].value)[:160]}, fn="metacommands::extern")
+    if len(ps) != 1 or ps[0].kind != "return":
+        ck.violation("metacommands::extern", f"a definition of 'x', then '.extern all', when another file exported 'x' already: ends in {ps[0].value!r}", construct="extern all after own definition")
+    else:
+        dups, x, own = ps[0].value
+        if dups < 1:
+            ck.violation("metacommands::extern", "file B defines 'x' and then says '.extern all' while file A has already exported an 'x': no 'duplicate-symbol' error - a third file's reference "
+                                                 "silently binds to A's definition", construct="extern all duplicate not reported")
+        if own is None:
+            ck.violation("metacommands::extern", "'.extern all' does not export the names the file defined before it", construct="extern all early names")
+        if x is None or (isinstance(x, tuple) and isinstance(x[-1], tuple) and x[-1][-1] != ".internal9.x"):
+            ck.violation("metacommands::extern", f"after the duplicate the exported 'x' is {x!r}; the first export (file A's) must stay", construct="extern duplicate keeps first")
+    # the whole route: the '.extern all' STATEMENT, compiled by compile_block like any other, switches exporting on for the
+    # statements after it (definition order must not matter: C03)
+    def thunk3():
+        sh = Shapes(I)
+        I.module_get("metacommands", "extern")      # the package imports every module: the directive registry is complete
+        comp = I.instantiate(I.module_get("compiler", "Compiler"), [], {})
+        T = lambda n: I.module_get("types", n)
+        stmts = [sh.mk(T("Label"), None, None, "early", False),
+                 sh.mk(T("Instruction"), None, None, sh.symbol(".extern"), [sh.symbol("all")]),
+                 sh.mk(T("Label"), None, None, "late", False),
+                 sh.mk(T("Assignment"), None, None, sh.symbol("latec"), sh.xexpr(5, "5"), False)]
+        block = sh.mk(T("CodeBlock"), None, None, stmts)
+        f = Rec(ClassVal("FileStub"))
+        f.fields.update(filename="a.mac", body=block)
+        I.call_method(comp, "compile_file", [f, 0o1000, {"promise": None, "set_where": None}])
+        t = _table(comp.fields["extern_symbols_mapping"])
+        return sorted(k for k in t if isinstance(k, str))
+    try:
+        ps = I.explore(thunk3)
+    except Unsupported as ex:
+        raise Unknown(f"compile_file on [early:, .extern all, late:, latec = 5]: {ex}") from None
+    where = "metacommands::extern"
+    ck.instance(("extern-all-route",), {"exported after compiling [early:, .extern all, late:, latec = 5]": repr(ps[0].value)[:160]}, fn=where)
+    if len(ps) != 1 or ps[0].kind != "return":
+        raise Unknown(f"compile_file on [early:, .extern all, late:, latec = 5]: {ps}")
+    missing = [n for n in ("early", "late", "latec") if n not in ps[0].value]
+    if missing:
+        ck.violation(where, f"a file 'early: / .extern all / late: / latec = 5' exports {ps[0].value}; {missing} missing: '.extern all' must export the names defined before it AND switch exporting on for every "
+                            "definition after it in the same file (moving a definition across the directive must not change what other files can see)", construct="extern all reaches later statements")
     # parser: a local label cannot be exported
     fn = repo.func("parser::label")
     ok = False
